@@ -6,6 +6,7 @@ ALL = ["C%02d" % i for i in range(1, 21)]
 TEXT = {
  "C01": ("proof", "wf predicates (stride = dimension, whole number of coordinates, ends aligned / non-decreasing / finishing at the end) are postconditions of every constructor and setter of the level 0-2 types, and SetCoords-then-Coords returns bit-identical nested coordinates (ghost clients over the contracts), for all inputs and all loop iterations; stride-mismatch rejection with the error's fields. MultiPolygon: constructors only.", "5/C01"),
  "C02": ("proof", "Push / part accessor / NumX contracts over the list-of-parts view (part i = flat[start_i:ends_i)) for Polygon, MultiLineString, MultiPoint, incl. layout-mismatch leaves the receiver unchanged; Swap exchanges all fields. The induction over Push histories is the per-operation obligations.", "5/C02"),
+ "C04": ("proof", "For every reader behaviour allowed by the io contracts and every byte content: no index, slice, conversion, nil or type-assertion panic in wkbcommon readers, wkb.Read/Unmarshal, ewkb.Read/Unmarshal and the SQL Scan wrappers (safety obligations, all discharged); each decoder returns an error or a geometry that is well formed for its type (C01 predicates) built only through constructors/Push whose preconditions are proved at the call; every count-sized make and every part loop is dominated by its MaxGeometryElements check at the right level (alloc-guard obligations).", "5/C04"),
  "C08": ("proof", "Over ordered reals with +-Inf constants: geom0.Bounds is the exact per-dimension min/max (recursive min/max functions, shown to be a lower/upper bound that is attained, by induction); NewBounds/IsEmpty; extendLayout keeps every semantic dimension (Z with Z, M with M); Extend's result per semantic dimension is fmin/fmax of the old box and the geometry's box, hence order independent (two-call ghost client); collections recurse (any depth, via a global validity precondition); Overlaps/OverlapsPoint agree with closed-interval arithmetic.", "5/C08"),
  "C09": ("proof", "Over the reals: doubleArea1 = trapezoid sum = shoelace sum for closed rings (telescoping lemma by induction), Length = sum of segment lengths, additivity over the parts of level-2 geometries, zero measures for points and lines, and no panic on any well-formed geometry incl. MultiPolygons with empty polygons.", "5/C09"),
  "C15": ("proof", "Over the reals: xy point-segment distance is <= the distance to every point of the segment and attained at the clamped projection (forall/exists form, incl. zero-length segments); perpendicular distance likewise over the whole line; point-linestring = fold of point-segment minima (loop invariant); 2D segment-segment = 0 exactly when the Cramer parameters lie in [0,1]^2 (a common point, lemma) else the least endpoint-segment distance; 3D point-segment as 2D; 3D segment-segment: stationary point of the Gram form when inside the unit square (global minimum by lemma), else least endpoint-segment distance; every division/sqrt argument proved safe (never NaN).", "5/C15"),
